@@ -66,7 +66,12 @@ static int objOfFd(int fd)
   int c = clientOfFd(fd);
   if(c) return c;
   for(int l = 1; l <= NLS; ++l) if(lst[l] && lstfd[l] == fd) return 10 + l;
-  for(int e = 1; e <= NES; ++e) if(est[e] && estfd[e] == fd) return 20 + e;
+  for(int e = 1; e <= NES; ++e)
+  {
+    // an establisher created from a host name opens its socket only after the resolver has finished
+    if(est[e] && estfd[e] == -2) { int f = (int)((Socket*)est[e])->getFileDescriptor(); if(f >= 0 && ((Socket*)est[e])->isOpen()) estfd[e] = f; }
+    if(est[e] && estfd[e] == fd) return 20 + e;
+  }
   return 0;
 }
 static int fdOfPtr(void* p) { for(int i = 0; i < nptr; ++i) if(ptrmap[i].ptr == p) return ptrmap[i].fd; return -1; }
@@ -149,6 +154,15 @@ extern "C" int epoll_wait(int epfd, struct epoll_event* evs, int maxevents, int 
   struct epoll_event tmp[64];
   int exhausted = stepi >= nsteps;
   const char* st = exhausted ? "X" : steps[stepi++];
+  static int exhaustedPolls = 0;
+  if(!exhausted) exhaustedPolls = 0;
+  else if(++exhaustedPolls > 300)
+  {
+    // run() keeps polling although an interrupt has been requested again and again: it will never return
+    static const char msg[] = "DRIVER-HANG: run() does not return after interrupt()\n";
+    (void)!write(2, msg, sizeof(msg) - 1);
+    _exit(97);
+  }
   if(exhausted) do_interrupt("script");
   // the send outcome of an O/B step applies to the send(s) this step triggers
   sendQn = 0;
@@ -511,6 +525,23 @@ void drv_apply(const char* op)
     est[e] = srv->connect(Socket::loopbackAddress, port, *ecb[e]);
     estfd[e] = est[e] ? (int)((Socket*)est[e])->getFileDescriptor() : -1;
     ev_begin("conn"); j_int("e", e); j_int("h", h); j_bool("ok", est[e] != 0); j_end();
+  }
+  else if(!strcmp(op, "connhost"))
+  {
+    // like conn, but by host name: the server resolves "localhost" on a pool thread and is woken through the same
+    // eventfd that interrupt() uses
+    int e = (int)tok_int(); int h = (int)tok_int();
+    uint32 ip; uint16 port = 0;
+    if(e < 1 || e > NES || est[e] || h < 1 || h > NH || !hs[h] || !hs[h]->getSockName(ip, port)) { ev_begin("nop"); j_end(); return; }
+    est[e] = srv->connect(String("localhost"), port, *ecb[e]);
+    estfd[e] = est[e] ? -2 : -1;
+    ev_begin("conn"); j_int("e", e); j_int("h", h); j_bool("ok", est[e] != 0); j_bool("byname", 1); j_end();
+  }
+  else if(!strcmp(op, "waitresolve"))
+  {
+    // real time: let the resolver thread finish (it then writes the wake-up eventfd)
+    struct timespec ts = {0, 60 * 1000 * 1000}; nanosleep(&ts, 0);
+    ev_begin("waitresolve"); j_end();
   }
   else if(!strcmp(op, "rmconn"))
   {
